@@ -109,9 +109,16 @@ Fixpoint height (n : node) : nat :=
 
 Record buf := { b_data : list Z; b_pos : nat }.
 
-(* d placed at position pos of data; a gap is filled with zero bytes *)
-Definition overwrite (data : list Z) (pos : nat) (d : list Z) : list Z :=
+(* d placed at position pos of data; a gap is filled with zero bytes; writing nothing changes
+   nothing (in particular it does not extend the file up to a cursor behind its end) *)
+Definition overwrite_at (data : list Z) (pos : nat) (d : list Z) : list Z :=
   firstn pos data ++ repeat 0 (pos - length data) ++ d ++ skipn (pos + length d) data.
+
+Definition overwrite (data : list Z) (pos : nat) (d : list Z) : list Z :=
+  match d with
+  | [] => data
+  | _ => overwrite_at data pos d
+  end.
 
 Definition buf_write (b : buf) (d : list Z) : buf :=
   {| b_data := overwrite (b_data b) (b_pos b) d; b_pos := b_pos b + length d |}.
